@@ -17,5 +17,5 @@ Definition count_tag (t : N) : N := N.of_nat (length (filter (fun e => status_ta
 
 (** how the sites are accounted for (kept as a lemma so that a silent downgrade of a status shows up) *)
 Lemma site_status_counts :
-  (count_tag 0, count_tag 1, count_tag 2, count_tag 3, count_tag 4, count_tag 5) = (35, 4, 2, 4, 6, 8).
+  (count_tag 0, count_tag 1, count_tag 2, count_tag 3, count_tag 4, count_tag 5) = (35, 5, 2, 4, 6, 7).
 Proof. vm_compute. reflexivity. Qed.
